@@ -106,3 +106,10 @@ def item_of(t):
             and t[1][1][1].endswith("::next"):
         return t[1][1]
     return None
+
+
+def in_every_iteration(fn, loop, block):
+    """the block executes in every iteration that continues: it dominates every back-edge tail."""
+    cfg = fn.cfg
+    tails = [t for (t, h) in cfg.back_edges() if h == loop.header]
+    return block in loop.body and bool(tails) and all(cfg.dominates(block, t) for t in tails)
